@@ -324,6 +324,9 @@ class Session:
 # the reference relation (DESIGN.md Appendix A) and the per-step oracle
 # ---------------------------------------------------------------------------------------------------------------
 
+ELECTION = ("Wait-Returns", "Wait-Conn-Ack-Elect", "Wait-Conn-Ack/Elect")
+
+
 FOREIGN_PAD = [(257, 0x80, 99999, b"\x00\x01\x7f\x00\x00\x09"), (266, 0x80, 99999, (7).to_bytes(4, "big")), (269, 0x80, 99999, b"pad")]
 
 
@@ -420,6 +423,11 @@ def judge(role, prev, o, history_ctx):
                 allow({"Closed"}, "R6")
         elif ps == "Wait-I-CEA" and kind == "eof":
             allow({"Closed"}, "R7")
+        elif ps in ELECTION and kind == "eof":
+            # the election states are not implemented, but the connection they sit on can end like any other
+            allow({"Closed"}, "R7e")
+        elif ps in ELECTION and kind == "close":
+            allow({"Closed", "Closing"}, "R16e")
     else:
         if ps == "Closed" and kind == "msg" and o["conn"] != "none":
             if what in ("cer", "cer+dwr", "cer+cer", "cer+app", "cer-tflag"):
@@ -636,7 +644,7 @@ class FsmModel:
             evs.append(("eof",))
             if state in OPENS or state in ("Closing", "Wait-I-CEA"):
                 evs.append(("partial+eof", "app-req" if state in OPENS else "dpa"))
-        if state in OPENS or state in ("Closing", "Wait-I-CEA"):
+        if state in OPENS or state in ("Closing", "Wait-I-CEA") or state in ELECTION:
             evs.append(("close",))
         return evs
 
